@@ -275,6 +275,9 @@ int (*v_all_states[])(htp_connp_t *) = { htp_connp_REQ_IDLE, htp_connp_REQ_LINE,
     htp_connp_REQ_FINALIZE, htp_connp_REQ_IGNORE_DATA_AFTER_HTTP_0_9, htp_connp_RES_IDLE, htp_connp_RES_LINE, htp_connp_RES_HEADERS,
     htp_connp_RES_BODY_DETERMINE, htp_connp_RES_BODY_IDENTITY_CL_KNOWN, htp_connp_RES_BODY_IDENTITY_STREAM_CLOSE, htp_connp_RES_BODY_CHUNKED_LENGTH,
     htp_connp_RES_BODY_CHUNKED_DATA, htp_connp_RES_BODY_CHUNKED_DATA_END, htp_connp_RES_FINALIZE };
+/* personality hooks reached through cfg function pointers: make the generic implementations known to the TU */
+htp_status_t (*v_hdr_fns[])(htp_connp_t *, unsigned char *, size_t) = { htp_process_request_header_generic, htp_process_response_header_generic };
+htp_status_t (*v_line_fns[])(htp_connp_t *) = { htp_parse_request_line_generic, htp_parse_response_line_generic };
 htp_status_t contract_req_state(htp_connp_t *connp)
 __CPROVER_requires(__CPROVER_rw_ok(connp, sizeof(*connp)) && CUR_IN_CURSOR(connp) && IS_REQ_STATE(connp->in_state))
 __CPROVER_requires(connp->in_status != HTP_STREAM_STOP && connp->in_status != HTP_STREAM_ERROR && (connp->in_tx != NULL || connp->in_state == htp_connp_REQ_IDLE || connp->in_state == htp_connp_REQ_IGNORE_DATA_AFTER_HTTP_0_9))
@@ -690,6 +693,47 @@ __CPROVER_ensures(g_body_n == 1 ==> (g_body_len <= LINE_CAP && g_clear_n == 1 &&
 __CPROVER_ensures((g_body_n == 1 && g_body_len <= LINE_CAP) ==> connp->in_tx->request_message_len == O(connp->in_tx->request_message_len) + (int64_t) g_body_len)
 /* completion never discards the pending bytes: the next request line is still there for REQ_LINE */
 __CPROVER_ensures(g_txstate_n == 1 ==> g_clear_n == 0)
+__CPROVER_ensures(RQ_COMMON_POST(connp))
+;
+
+/* ==== request header block ============================================================================== */
+/* stubs: header processing (generic personality function, C02/C11 units), line classification helpers, bstr growth */
+htp_status_t contract_site_process_request_header(htp_connp_t *connp, unsigned char *data, size_t len)
+__CPROVER_requires(len <= (size_t) HTP_MAX_HEADER_FOLDED + 2 * LINE_CAP)
+__CPROVER_assigns(g_hdrproc_n)
+__CPROVER_ensures(g_hdrproc_n == 1 && (__CPROVER_return_value == HTP_OK || __CPROVER_return_value == HTP_ERROR))
+;
+int contract_htp_connp_is_line_terminator(htp_connp_t *connp, unsigned char *data, size_t len, int next_no_lf)
+__CPROVER_requires(1) __CPROVER_assigns() __CPROVER_ensures(__CPROVER_return_value == 0 || __CPROVER_return_value == 1);
+int contract_htp_connp_is_line_folded(unsigned char *data, size_t len)
+__CPROVER_requires(1) __CPROVER_assigns() __CPROVER_ensures(__CPROVER_return_value >= -1 && __CPROVER_return_value <= 1);
+bstr *contract_site_bstr_add_mem(bstr *destination, const void *data, size_t len)
+__CPROVER_requires(__CPROVER_rw_ok(destination, sizeof(bstr)) && len <= LINE_CAP && destination->len <= (size_t) HTP_MAX_HEADER_FOLDED + LINE_CAP)
+__CPROVER_assigns(__CPROVER_object_whole(destination))
+__CPROVER_frees(destination)
+__CPROVER_ensures(__CPROVER_return_value == NULL || ((__CPROVER_return_value == destination || __CPROVER_is_fresh(__CPROVER_return_value, sizeof(bstr))) &&
+    __CPROVER_return_value->len == O(destination->len) + len))
+/* failure leaves the destination alone */
+__CPROVER_ensures(__CPROVER_return_value == NULL ==> (!__CPROVER_was_freed(destination) && destination->len == O(destination->len)))
+;
+htp_status_t contract_site_htp_tx_state_request_headers(htp_tx_t *tx)
+__CPROVER_requires(tx != NULL && __CPROVER_rw_ok(tx, sizeof(*tx)) && __CPROVER_rw_ok(tx->connp, sizeof(htp_connp_t)))
+__CPROVER_assigns(g_txstate_n, g_txstate_which, tx->connp->in_state, tx->connp->in_data_receiver_hook, tx->connp->in_current_receiver_offset, tx->flags)
+__CPROVER_ensures(g_txstate_n == 1 && g_txstate_which == 3 && (__CPROVER_return_value == HTP_OK || __CPROVER_return_value == HTP_STOP || __CPROVER_return_value == HTP_ERROR))
+__CPROVER_ensures(__CPROVER_return_value == HTP_OK ? (tx->connp->in_state == htp_connp_REQ_CONNECT_CHECK || tx->connp->in_state == htp_connp_REQ_FINALIZE) : tx->connp->in_state == O(tx->connp->in_state))
+__CPROVER_ensures(tx->connp->in_current_receiver_offset == O(tx->connp->in_current_receiver_offset) || tx->connp->in_current_receiver_offset == tx->connp->in_current_read_offset)
+;
+
+htp_status_t contract_htp_connp_REQ_HEADERS(htp_connp_t *connp)
+__CPROVER_requires(RQ_PRE(connp, htp_connp_REQ_HEADERS) && __CPROVER_is_fresh(connp->cfg, sizeof(htp_cfg_t)) && g_txstate_n == 0)
+__CPROVER_requires(connp->in_header == NULL || (__CPROVER_is_fresh(connp->in_header, sizeof(bstr)) && connp->in_header->len <= (size_t) HTP_MAX_HEADER_FOLDED + LINE_CAP))
+__CPROVER_assigns(g_consol_n, g_consol_len, g_clear_n, g_txstate_n, g_txstate_which, g_hdrproc_n, __CPROVER_object_whole(connp), connp->in_tx->flags, connp->in_tx->request_progress,
+                  __CPROVER_object_whole(connp->in_header))
+__CPROVER_frees(connp->in_header)
+/* C10: a header assembled from folded lines never grows past the documented cap (plus the line that crossed it) */
+__CPROVER_ensures(connp->in_header == NULL || connp->in_header->len <= (size_t) HTP_MAX_HEADER_FOLDED + LINE_CAP)
+/* more data needed only with the chunk exhausted (C09); completion of the header block goes through the transaction transition exactly once */
+__CPROVER_ensures(__CPROVER_return_value == HTP_DATA_BUFFER ==> (connp->in_current_read_offset == connp->in_current_len && g_txstate_n == 0 && connp->in_state == O(connp->in_state)))
 __CPROVER_ensures(RQ_COMMON_POST(connp))
 ;
 #endif
